@@ -223,6 +223,34 @@ theorem Written.int_iff {m : Mag α} (h : Written m) :
     · cases hi
   · rintro ⟨_, _, _, rfl⟩; rfl
 
+/-- what `int(text)` accepts is `[+-]digits` — no `.`, no exponent — and its value is the
+    decimal value of those digits: an `int` magnitude can only come from an integer literal. -/
+theorem pyInt_ok_shape {t : String} {i : Int} (h : pyInt t = .ok i) :
+    (stripSign t.toList).isEmpty = false ∧ (stripSign t.toList).all isDigit = true ∧
+    i = (if isNegChars t.toList then -((Nat.ofDigitChars 10 (stripSign t.toList) 0 : Nat) : Int)
+         else ((Nat.ofDigitChars 10 (stripSign t.toList) 0 : Nat) : Int)) := by
+  unfold pyInt at h
+  dsimp only at h
+  split at h
+  · cases h
+  · cases hi : intOfChars t.toList with
+    | none => rw [hi] at h; cases h
+    | some j =>
+      rw [hi] at h
+      injection h with h
+      subst h
+      unfold intOfChars at hi
+      split at hi
+      · cases hi
+      · rename_i hc
+        have hc' : (stripSign t.toList).isEmpty = false ∧ (stripSign t.toList).all isDigit = true := by
+          cases h1 : (stripSign t.toList).isEmpty <;> cases h2 : (stripSign t.toList).all isDigit <;> simp_all
+        refine ⟨hc'.1, hc'.2, ?_⟩
+        split at hi
+        · rename_i hn; injection hi with hi; rw [if_pos hn]; exact hi.symm
+        · rename_i hn; injection hi with hi; rw [if_neg hn]; exact hi.symm
+
+
 /-- every unit mentioned by a semantic value exists -/
 inductive VOK (s : St) : Val α → Prop
   | tok (t : Tok) : VOK s (.tok t)
